@@ -5,6 +5,7 @@ CFG = {
     "extra_bins": ["tbp"],
     "technique": "Lean 4 proof (writers parameterised by the hash-iteration order, statements over every permutation; exec.d replacement also on a "
                  "storage-aware model that keeps hard-link / symlink identity of a restored exec.d; "
+                 "SBOM files as a fold over the Vec of registered SBOMs: last registration per (target, format) stays, no hash order involved; "
                  "decide-able obligations on the regenerated iteration sites / serialised field types) + paired fresh-process runs compared byte for byte",
     "level_text": "Theorems (all inputs, every permutation, no bound): LayerEnv::write_to_layer_dir, replace_layer_exec_d_programs and the "
                   "trait API's write_layer leave the same layer (same entries at every level of the directory tree, same <layer>.toml document, "
@@ -13,16 +14,23 @@ CFG = {
                   "keeps storage identity (XFs: hard links of one inode inside/outside exec.d, symlinks to siblings or elsewhere, fs::copy writing through them), for any two prior states and "
                   "any two iteration orders the call completes, leaves the same directory, every wanted name a regular file of its own (link count 1) with its own source's bytes, and writes no "
                   "pre-existing storage (execd_rewrite_ignores_restored_entries; in_place_overwrite_depends_on_order shows the wipe is what carries it); "
+                  "SBOM files: the build phase writes build_sboms then launch_sboms, and replace_layer_sboms a layer's slice, front to back in the order the SBOMs were registered, so for any number of SBOMs "
+                  "of one format the file of every (target, format) holds the one registered last, a function of the Vec alone (phase_sboms_last_wins, phase_sboms_depend_on_the_vecs_only, layer_sboms_last_wins); "
+                  "a reordering of the Vec is invisible exactly when no format repeats (sboms_distinct_formats_order_irrelevant) and decides the bytes otherwise (sbom_vec_order_matters); "
                   "every hash-iteration and read_dir site of the phase and layer code is one the model covers (Gen.HashSites, regenerated), "
                   "no serialised phase document has a hash-backed field, toml::Table is a BTreeMap, no clock/random source is mentioned. "
                   "Tied to the code by Gen.HashSites and by running every scenario in 4 fresh processes (3 pairs; 6 processes for the restored-exec.d scenarios) and comparing all bytes, "
-                  "link targets, the bytes behind every symlink and the link count / inode sharing of every file; for the restored-exec.d scenarios the model also predicts the exec.d listing.",
+                  "link targets, the bytes behind every symlink and the link count / inode sharing of every file; for the restored-exec.d scenarios the model also predicts the exec.d listing, "
+                  "for the repeated-SBOM scenarios (6 processes, real build phase / write_sboms / trait update) the SBOM files, and the oracle demands the last-registered bytes in every file.",
     "level_note": "PARTIAL. Proved on the model for the success paths; the error path of replace_layer_exec_d_programs (missing source file) "
                   "leaves an order-dependent subset in exec.d (Props/C20 execd_error_path_counterexample: FullStatement is false there). "
                   "Byte-level determinism of the toml serializer and of std (fs::write, fs::copy, create_dir_all modes) is sampled by the paired runs, not proved. "
                   "The storage-aware exec.d model (XFs) covers exec.d being a directory or absent and every source present; that remove_dir_all unlinks names without writing their storage and that "
                   "fs::copy creates a fresh inode for an absent name is std/kernel behaviour assumed by the model and sampled by the kind-execd scenarios (their listing carries link counts); "
                   "exec.d itself being a symlink is only sampled (layers-execdlink), the Dir-level model (C01's) does not follow it. "
+                  "SBOMs: 'the last SBOM registered for a format stays' is what the unchanged code does (Vec order, fs::write truncates) and what the oracle of the sbom scenarios demands; the property text itself only "
+                  "asks for identical bytes, so an implementation that deterministically kept another one would be flagged by this oracle although C20 as worded holds. The model has no error path for SBOM writes "
+                  "(a file that cannot be written ends the loop; sampled by the tbp pre-existing-directory scenarios, equality only). "
                   "The hash-site scan approximates types from annotations read with syn (field/param/local/variant types, return types, wrappers to a fixpoint); "
                   "an iteration hidden behind a generic or a macro-generated type is only caught by the paired runs. "
                   "Two error paths leave a HashMap-order-dependent subset behind (known findings C20-execd-missing-source-partial, C20-env-process-clash-partial; witnesses in corpus/C20; the generator stays free of both classes). "
@@ -45,6 +53,16 @@ CFG = {
             "aliasing wanted ones, wanted names hard-linked with a file outside exec.d, partially pre-existing, a self-referencing symlink; sampled part = each of 2-4 wanted and 0-2 stale names (out of 6) "
             "absent / plain / symlink (sibling, ../bin/tool, outside, dangling) / hard link of an earlier file. 6 fresh processes (18 on replay); the observation is differ:<line> or "
             "equal|<result>|<exec.d listing: name, kind, bytes, link count, bytes behind a symlink>, the model (Det.replaceExecdX on the storage-aware state built from the same entries) predicts the listing. "
+            "Kind sbom (76 fixed + 40 phase-level / 16 layer-level sampled quick, 120/40 per search round, 600/200 thorough): SBOM registrations with repeated formats. Routes bp (data-driven buildpack) and tbp (C05 test buildpack, payload by position, "
+            "empty / non-UTF-8 payloads): the real build phase on a fresh layers directory with a BuildResult of 0-8 build and 0-8 launch SBOMs; routes ls (cached_layer + LayerRef::write_sboms) and lt (trait API create, restore, "
+            "ExistingLayerStrategy::Update returning the SBOMs) on a layer that already has an SBOM of every format. Fixed part, n in 0..8: n build SBOMs cycling cdx,spdx,syft with distinct bytes (n>=4: same format again, other bytes), "
+            "n launch SBOMs cycling the other way, both interleaved, n documents of one format beside n exact duplicates (n>=2), the same through tbp with launch/store items, cycling lists through ls/lt, first-pass documents + "
+            "one handed in again unchanged + a refined one at the end (n=4,6,8). Sampled: per target a third of the cases every format 2-3 times shuffled (<=8), else 0-8 SBOMs of random formats, bytes out of 3 documents per format "
+            "(exact duplicates and same-format-other-bytes both arise), a quarter without launch SBOMs, registrations shuffled with launch.toml / store items (a third of the bp cases with 3..33 processes, labels, slices, store keys). "
+            "6 fresh processes (18 on replay); observation differ:<line> or equal|<result>|<SBOM files name=bytes>, the model (Det.writeBuildResultSboms / replaceLayerSbomFiles) predicts the files, the oracle (Spec.Det.sbomVerdict) "
+            "demands equal runs and in every file the bytes registered last for it, no other SBOM file. "
+            "Sizes (16 cases): for n in 3,4,8,9,16,17,32,33 a build with n processes, n labels, n slices, a store of n keys (some nested), all six SBOM files, pre-existing store; and a layer history with n metadata keys, "
+            "n process types, n exec.d programs written, restored, written again through the struct API and through the trait API's Update (with a repeated SBOM format). "
             "6 layers-kind histories (execdlink) make exec.d itself a symlink (to a directory of the layer, outside, dangling) with ops K (symlink) / H (hard link) / Q (exec.d listing). Then seeded sampling: layer histories (<=14 ops quick / <=30 thorough over 3 layer names, struct and trait ops mixed), "
             "data-driven buildpack runs as detect (provides/requires/or with multi-key metadata) and build (layers via both APIs, launch.toml with several "
             "processes/labels/slices, store with nested multi-key metadata, build and launch SBOMs, pre-existing store). Each scenario = 4 fresh processes "
@@ -52,16 +70,21 @@ CFG = {
             "snapshot (path, mode, hex of all bytes; link target and the bytes behind every symlink; link count and first path of the same inode for files with several names) "
             "of the layers directory and the plan file; 1 in 16 scenarios waits 1.1 s before the last run "
             "(second-resolution timestamps). non-trivial = some single write involves >=3 hash-ordered keys (process types or exec.d programs) "
-            "or the run writes a TOML document with >=2 table keys / array entries, or (kind execd) >=2 wanted names shared storage beforehand or >=3 names are wanted; distinct = distinct input line",
+            "or the run writes a TOML document with >=2 table keys / array entries, or (kind execd) >=2 wanted names shared storage beforehand or >=3 names are wanted, or (kind sbom) some target / layer gets two SBOMs of one format or >=4 SBOMs; distinct = distinct input line",
     "trusted_base": ["Spec/Determinism.lean: what 'the same directory' means (canon; S1-S4 in Props/C20 state its meaning); execdVerdict: runs equal and, on success, exec.d = exactly the wanted names, each an independent regular file with its own source's bytes",
                      "Model/Determinism.lean XFs / XFs.copyTo: fs::copy onto an existing name writes the storage the name designates (through symlinks, into a shared inode); remove_dir_all only unlinks; a name created by the call has storage of its own",
                      "Driver/C20.lean: replay of the hand-prepared entries (f/l/h) into XFs and the listing format; harness c20.rs execd_history / execd_listing / raw_snapshot (link-ness is part of the snapshot)",
+                     "Spec/Determinism.lean sbomVerdict / lastRegistered: runs equal and every SBOM file = the bytes registered last for its (target, format), nothing else; "
+                     "Driver/C20.lean handleSbom: which registrations a scenario's items stand for (bp items b/h, the test buildpack's payload-by-position rule, the three SBOMs a layer scenario starts with), file names from Gen.Tables.sbomSuffixes; "
+                     "harness c20.rs sbom_history / sbom_observation (top-level *.sbom.*.json files of the layers directory of the first run)",
                      "Gen.HashSites regenerated from /repo by translator/hashsites.rs (syn): iteration / read_dir / entropy sites, serialised field types, toml features"],
     "assumptions": COMMON_ASSUME + [
         "std's HashMap iteration order is a permutation of the entries (each key once); keys of a map are distinct",
         "the toml serializer and std::fs are deterministic functions of their arguments (sampled: 4 processes per scenario)",
         "read_dir order is the same in every process for identical inputs on one file system (ext4 here; sampled by the dupenv class: which of two files designating one variable wins)",
         "a hash-order leak over >=3 keys shows in at least one of 3 pairs with probability >= 0.99",
+        "two SBOMs of one format handed on in a per-process order: each run keeps the right one with probability 1/2, so 6 runs are all equal and right with probability 2^-6 (18 runs on replay: 2^-18); "
+        "equal-but-wrong runs are caught by the content oracle; >= 40 such scenarios in a quick run",
         "a leak between two aliased exec.d names shows in one pair with probability 1/2: 5 pairs per scenario (>= 0.96), 17 on replay; over the >= 50 aliasing scenarios of a quick run a miss is negligible; a run that happens to be equal is still judged on its content",
     ],
 }
